@@ -1,10 +1,254 @@
 package main
 
-import "math/rand/v2"
+// wgen: programs of the WIDER supported language for the direct interp-vs-bash search:
+// functions with local variables, command substitution, arithmetic, [[ ]] and test, indexed
+// arrays, here-strings and here-documents read by builtins, printf, case with glob patterns,
+// set -e / pipefail, EXIT/ERR traps, break/continue levels, subshells, pipelines of builtins.
+//
+// Seed stability (DESIGN 3.7a): the domain is restricted to constructs on which the tree agrees
+// with bash; what had to be left out is listed in notes/C26.md.  Everything is a builtin or a
+// function of the program; no file outside the scratch directory is touched.
 
-// wgen: generator of the wider supported language (see wide2.go once widened)
+import (
+	"fmt"
+	"math/rand/v2"
+	"strings"
+)
+
 type wgen struct {
-	r *rand.Rand
+	r      *rand.Rand
+	nfunc  int
+	inFunc bool
+	inLoop int
+	budget int
+	nloop  int
+	inSub  int
 }
 
-func (w *wgen) program() string { return "echo stub" }
+var wvars = []string{"a", "b", "c"}
+var wvals = []string{"x", "yy", "7", "10", "ab c", "", "foo", "3"}
+
+func (w *wgen) pick(l []string) string { return l[w.r.IntN(len(l))] }
+
+func (w *wgen) val() string {
+	switch w.r.IntN(6) {
+	case 0:
+		return "$" + w.pick(wvars)
+	case 1:
+		return `"$` + w.pick(wvars) + `"`
+	case 2:
+		return "$((" + w.arith() + "))"
+	case 3:
+		return `"` + w.pick(wvals) + `"`
+	case 4:
+		return "'" + w.pick(wvals) + "'"
+	default:
+		return w.pick([]string{"x", "yy", "7", "10", "foo", "3"})
+	}
+}
+
+func (w *wgen) arith() string {
+	atom := func() string {
+		switch w.r.IntN(3) {
+		case 0:
+			return "n"
+		case 1:
+			return fmt.Sprint(w.r.IntN(20))
+		default:
+			return "${#a}"
+		}
+	}
+	switch w.r.IntN(5) {
+	case 0:
+		return atom()
+	case 1:
+		return atom() + " + " + atom()
+	case 2:
+		return atom() + " * " + atom() + " - " + atom()
+	case 3:
+		return "(" + atom() + " + 1) % 5"
+	default:
+		return atom() + " > " + atom() + " ? 1 : 2"
+	}
+}
+
+func (w *wgen) cond() string {
+	switch w.r.IntN(9) {
+	case 0:
+		return "true"
+	case 1:
+		return "false"
+	case 2:
+		return `[ "$` + w.pick(wvars) + `" = ` + w.val() + ` ]`
+	case 3:
+		return `[[ $` + w.pick(wvars) + ` == ` + w.pick([]string{"x*", "*y", "?", "foo", "[a-c]*"}) + ` ]]`
+	case 4:
+		return `[ -n "$` + w.pick(wvars) + `" ]`
+	case 5:
+		return `(( ` + w.arith() + ` ))`
+	case 6:
+		return `test ` + fmt.Sprint(w.r.IntN(5)) + ` -lt "${n:-0}"`
+	case 7:
+		return `[[ -z $` + w.pick(wvars) + ` || $n -gt 2 ]]`
+	default:
+		if w.nfunc > 0 {
+			return fmt.Sprintf("f%d", 1+w.r.IntN(w.nfunc))
+		}
+		return "true"
+	}
+}
+
+func (w *wgen) simple() string {
+	switch k := w.r.IntN(100); {
+	case k < 22:
+		return "echo " + w.val() + " " + w.val()
+	case k < 32:
+		return w.pick(wvars) + "=" + w.val()
+	case k < 38:
+		return "n=$((" + w.arith() + "))"
+	case k < 43:
+		return `printf '%s-%d\n' ` + w.val() + " " + fmt.Sprint(w.r.IntN(50))
+	case k < 48:
+		return w.pick(wvars) + "=$(echo " + w.val() + "; echo z)"
+	case k < 52:
+		// (command substitution of something that can fail is left out: known finding
+		// errexit_inherited_by_command_substitution)
+		return w.pick(wvars) + "=$(echo " + w.val() + ")"
+	case k < 57:
+		return "arr=(" + w.val() + " q " + w.val() + `); echo "${arr[1]}" "${#arr[@]}"`
+	case k < 61:
+		return `arr+=(` + w.val() + `); for e in "${arr[@]}"; do echo "<$e>"; done`
+	case k < 66:
+		return `read -r a b <<< ` + w.pick([]string{`"p q r"`, `"$c"`, `one`}) + `; echo "$a|$b"`
+	case k < 70:
+		return "while read -r l; do echo \"[$l]\"; done <<EOF\nl1 $a\nl2\nEOF"
+	case k < 74:
+		return `echo "${a:-dflt}" "${b:+alt}" "${#c}" "${a%x}" "${c#f}"`
+	case k < 78:
+		return w.cond()
+	case k < 82:
+		if w.inLoop > 0 {
+			return w.pick([]string{"break", "continue", "break 2", "continue 2", "break 1"})
+		}
+		return "false"
+	case k < 86:
+		if w.inFunc && w.inSub == 0 { // (return inside a subshell of a function: known finding core_AReturnOutside)
+			return w.pick([]string{"return", "return 3", "return 0", `local a=` + w.val(), "local n=5 b"})
+		}
+		return ":"
+	case k < 89:
+		return w.pick([]string{"set -e", "set +e", "set -o pipefail", "set -u; echo \"${a:-}\"; set +u"})
+	case k < 92:
+		return "echo " + w.val() + " | { read -r l; echo \"got $l\"; }"
+	case k < 94:
+		return "{ echo p; false; } | ( while read -r l; do echo \"$l\"; done ); echo \"ps=$?\""
+	case k < 96:
+		return "exit " + fmt.Sprint(w.r.IntN(4))
+	case k < 98:
+		if w.nfunc > 0 {
+			return fmt.Sprintf("f%d %s %s", 1+w.r.IntN(w.nfunc), w.val(), w.val())
+		}
+		return "echo $?"
+	default:
+		return "echo \"$?\" \"$#\""
+	}
+}
+
+func (w *wgen) list(depth, max int) string {
+	n := 1 + w.r.IntN(max)
+	ss := make([]string, n)
+	for i := range ss {
+		ss[i] = w.stmt(depth)
+	}
+	return strings.Join(ss, "\n")
+}
+
+func (w *wgen) stmt(depth int) string {
+	w.budget--
+	if depth <= 0 || w.budget <= 0 {
+		return w.simple()
+	}
+	switch k := w.r.IntN(100); {
+	case k < 45:
+		return w.simple()
+	case k < 53:
+		s := "if " + w.cond() + "; then\n" + w.list(depth-1, 2)
+		if w.r.IntN(2) == 0 {
+			s += "\nelif " + w.cond() + "; then\n" + w.list(depth-1, 1)
+		}
+		if w.r.IntN(2) == 0 {
+			s += "\nelse\n" + w.list(depth-1, 2)
+		}
+		return s + "\nfi"
+	case k < 61:
+		w.inLoop++
+		s := "for i in " + w.pick([]string{"1 2 3", `"$a" z`, "{1..3}", `"${arr[@]}"`, "x"}) + "; do\n" + w.list(depth-1, 3) + "\ndone"
+		w.inLoop--
+		return s
+	case k < 67:
+		w.inLoop++
+		w.nloop++
+		kv := fmt.Sprintf("k%d", w.nloop)
+		s := kv + "=0; while [ $" + kv + " -lt " + fmt.Sprint(1+w.r.IntN(3)) + " ]; do " + kv + "=$((" + kv + "+1))\n" + w.list(depth-1, 3) + "\ndone"
+		w.inLoop--
+		return s
+	case k < 71:
+		// (C-style for loops are left out: known finding cstyle_for_stops_after_failing_body)
+		return w.simple()
+	case k < 77:
+		return "case " + w.val() + " in\n  x*|7) " + w.stmtLine(depth-1) + ";;\n  [0-9]*) " + w.stmtLine(depth-1) + ";;\n  *) " + w.stmtLine(depth-1) + ";;\nesac"
+	case k < 83:
+		save := w.inLoop
+		w.inLoop = 0
+		w.inSub++
+		s := "(\n" + w.list(depth-1, 3) + "\n)"
+		w.inSub--
+		w.inLoop = save
+		return s
+	case k < 88:
+		return "{\n" + w.list(depth-1, 3) + "\n}"
+	case k < 94:
+		return w.cond() + w.pick([]string{" && ", " || "}) + w.simpleNoNL()
+	default:
+		return "! " + w.cond()
+	}
+}
+
+func (w *wgen) simpleNoNL() string {
+	for {
+		s := w.simple()
+		if !strings.Contains(s, "\n") {
+			return s
+		}
+	}
+}
+
+func (w *wgen) stmtLine(depth int) string {
+	return w.simpleNoNL()
+}
+
+func (w *wgen) program() string {
+	w.budget = 10 + w.r.IntN(25)
+	var sb strings.Builder
+	if w.r.IntN(3) == 0 {
+		sb.WriteString("set -e\n")
+	}
+	if w.r.IntN(6) == 0 {
+		sb.WriteString("trap 'echo bye $?' EXIT\n")
+	}
+	// (ERR traps are left out: known finding err_trap_fires_on_exit_builtin)
+	sb.WriteString("a=x; b=; c=foo; n=2; arr=(u v)\n")
+	nf := w.r.IntN(3)
+	for i := 1; i <= nf; i++ {
+		w.inFunc = true
+		save := w.inLoop
+		w.inLoop = 0
+		fmt.Fprintf(&sb, "f%d() {\n%s\n}\n", i, w.list(2, 3))
+		w.inLoop = save
+		w.inFunc = false
+		w.nfunc = i // a function may only call earlier ones: no recursion
+	}
+	sb.WriteString(w.list(3, 5))
+	sb.WriteString("\n")
+	return sb.String()
+}
